@@ -214,11 +214,28 @@ func isChoiceIndex(m *runnerModel, ix *ast.IndexExpr) bool {
 	if sig.Params().Len() != 1 || info.Uses[id] != sig.Params().At(0) {
 		return false
 	}
-	_, fields := fieldChain(info, ix.X)
-	for _, f := range fields {
-		if f == m.fLast {
-			return true
+	base := ix.X
+	for d := 0; d < 4; d++ {
+		_, fields := fieldChain(info, base)
+		for _, f := range fields {
+			if f == m.fLast {
+				return true
+			}
 		}
+		// a local bound once to (a part of) the pending option group: options := dr.lastStatement.….Options
+		bid, ok := unparen(base).(*ast.Ident)
+		if !ok || wGlobal == nil {
+			return false
+		}
+		v, isVar := info.Uses[bid].(*types.Var)
+		if !isVar || v.IsField() {
+			return false
+		}
+		rhs, idx, _, okd := wGlobal.expander(m.next).def(v)
+		if !okd || rhs == nil || idx >= 0 {
+			return false
+		}
+		base = rhs
 	}
 	return false
 }
